@@ -83,7 +83,7 @@ type Fabric struct {
 var Fab *Fabric
 
 //go:norace
-func Reset() { Fab = &Fabric{next: 40000} }
+func Reset() { Fab = &Fabric{next: 40000, budget: MaxPackets} }
 
 // MaxPackets is the horizon of one execution: a program that keeps emitting (a message relayed
 // to itself over and over) would never go quiescent.
